@@ -15,10 +15,10 @@ from pandera.backends.base import (
     CoreParserResult,
 )
 from pandera.backends.pandas.error_formatters import (
-    _multiindex_to_frame,
     consolidate_failure_cases,
     format_generic_error_message,
     format_vectorized_error_message,
+    multiindex_label_text,
     reshape_failure_cases,
 )
 from pandera.errors import (
@@ -196,11 +196,7 @@ class PandasSchemaBackend(BaseSchemaBackend):
             if isinstance(check_obj.index, pd.MultiIndex):
                 # MultiIndex values are saved on the error as the text of
                 # their tuples: rows are matched in that same rendering
-                labels = (
-                    _multiindex_to_frame(check_obj)
-                    .apply(tuple, axis=1)
-                    .astype(str)
-                )
+                labels = pd.Series(multiindex_label_text(check_obj.index))
                 mask = ~labels.isin(index_values).to_numpy()
             else:
                 mask = ~check_obj.index.isin(index_values)
